@@ -8,16 +8,18 @@ SINGLES = [b"A", b"b", b"E", b"H", b"0", b"1", b"2", b"_", b"*", b":", b"?", b";
            b"#", b'"', b"'", b"(", b")", b"@", b"/", b"\x00", b"\xff"]
 CHUNKS = [b"AAAAAAAAAAA", b"111111111", b';"\x00\xfe']
 REDUCED = [b"A", b"E", b"1", b"0", b".", b"-", b"#", b"H", b"'", b";", b",", b" ", b"\n", b":", b"?", b"(", b")", b"\xff"]
-REPS = [ord(c) for c in "Ab1_*:?;, \t\n+-.#\"'()@/E"] + [0, 255]
+HDRS = [b"A", b"B", b"*", b":", b";", b"?", b" ", b"1", b","]
+REPS = [ord(c) for c in "Ab1_*:?;, \t\n+-.#\"'()@/E!"] + [0, 255]
 
 BASES = [
     b"A", b"A?", b":A;B", b"*IDN?", b"AB:A 1", b"A 1,2;B 3", b"A -1.5e+3", b"A .5", b"A 5.", b"A +12E-2",
     b"A ABC", b"A ABCDEFGHIJKL", b"ABCDEFGHIJKL 1", b"A 10 V", b"A 10V", b"A 1.5 MA/S", b"A 1 ABCDEFGHIJKL",
     b"A #HFF", b"A #Q17", b"A #B101", b"A #hff,#q7,#b1",
     b"A 'x'", b"A \"x\"", b"A 'a;b,c:d'", b"A 'it''s'", b"A \"q\"\"r\"", b"A ''", b"A 'a' , \"b\"",
-    b"A #13a;b", b"A #10", b"A #210ABCDEFGHIJ", b"A #19123456789,1", b"A #0abc;,\n", b"A #15';\"(),2",
-    b"A (1,2)", b"A (@1:3,5)", b"A ()", b"A (1),(2)",
+    b"A #13a;b", b"A #10", b"A #210ABCDEFGHIJ", b"A #19123456789,1", b"A #205hello", b"A #H0F", b"A #0abc;,\n", b"A #15';\"(),2",
+    b"A (1,2)", b"A (@1:3,5)", b"A ()", b"A (1),(2)", b"A (@1!2,3!4:5!6)", b"A (1,2:3,-4.5e1)", b"A (@1!2!3)",
     b"A 1 ,2", b"A 1, 2", b"A 1 , 2 ;B", b"A ;B", b"A; B", b"A ; B", b"A\n", b"A \n", b"A?;B?\n", b"A? 1;*IDN?", b"A;",
+    b"*IDN;:A", b"*A;AB:A?", b"A;*IDN;B 1", b"*IDN?;:SYST:ERR?",
     b"SYST:ERR?", b"SYSTem:ERRor:NEXT?;COUN?", b":SYST:ERR:COUN?;:AB:A 'x',#11y,(z),Q,#H1,1 S,2",
     b"A 1;B 'two';E #13abc;H (4);A FIVE;B #H6;E 7 S",
 ]
@@ -98,6 +100,7 @@ def explore(chk, prop, tier):
             ("data", "enum", alpha, 3 if not th else 3, b"A ", []),
             ("data4", "enum", REDUCED, 4 if not th else 5, b"A ", []),
             ("start4", "enum", REDUCED, 3 if not th else 4, b"AB:", []),
+            ("hdr5", "enum", HDRS, 5 if not th else 6, b"", []),
             ("corrupt", "corrupt", [], 0, b"", BASES)]
     if th:
         plan.append(("data-full4", "enum", alpha, 4, b"A ", []))
